@@ -111,7 +111,11 @@ func genC16(r *core.Rand, p *core.Plan) {
 	if r.Chance(1, 3) {
 		interrupts = int64(r.Range(1, 3))
 	}
-	p.Ops = append(p.Ops, core.Op{K: "createwallet", A: []int64{unlock, bdayBack, interrupts, int64(r.Range(1, 400)), int64(r.Intn(2))}})
+	backendFail := int64(0)
+	if r.Chance(1, 3) {
+		backendFail = int64(r.Range(1, 12))
+	}
+	p.Ops = append(p.Ops, core.Op{K: "createwallet", A: []int64{unlock, bdayBack, interrupts, int64(r.Range(1, 400)), int64(r.Intn(2)), backendFail}})
 	p.Ops = append(p.Ops, core.Op{K: "sync"})
 	// Resumed recovery: the wallet is stopped, the chain grows (payments keep
 	// obeying the look-ahead condition relative to everything paid so far),
@@ -341,6 +345,13 @@ func (rs *runState) createwallet(step int, op core.Op) {
 	}
 	x.birthday = bday.Add(-time.Duration(back) * time.Second)
 	x.unlockAtOpen = op.Arg(0)%2 == 1
+	if f := op.Arg(5); f > 0 {
+		// a backend call of the recovery fails once; the wallet's own retry
+		// loop (waitForSync) runs the recovery again in the same process
+		m := []string{"FilterBlocks", "GetBlockHash", "GetBlockHeader"}[(f-1)%3]
+		x.pendingFailNth = map[string]int{m: int(1 + ((f-1)/3)%4)}
+		env.Count("fault.backend-call-during-recovery." + m)
+	}
 	if err := x.createDB(); err != nil {
 		x.fail("setup-failed", "create: %v", err)
 		return
